@@ -22,7 +22,6 @@ def _conc(x, lo, hi):
 
 class _Ag(Agent):
     def initialize(self):
-        self.agent_type = "A"
         self.state = "active"
         self.register_event_handler(["active"], "ping", self._ping)
 
@@ -63,9 +62,10 @@ def new_model(start, stop, npop):
     m.log = []
     dc.model_log = m.log
     m.register_agent_factory("A", lambda agent_id, model, properties: _Ag(agent_id, model, properties, "A"))
+    m.register_agent_factory("B", lambda agent_id, model, properties: _Ag(agent_id, model, properties, "B"))
     m.run_specs(start, stop, DT)
-    for _ in range(npop):
-        m.create_agent("A", None)
+    for i in range(npop):
+        m.create_agent("AB"[i % 2], None)           # two agent types, interleaved in creation order
     return m
 
 
